@@ -7,15 +7,16 @@
    FULL STATEMENT of the property (all methods, objects created with or without x, 1-D and 2-D):
      forall programs of ONE method with identical non-data arguments, forall schedules, every thread's
      outcome is the serial one.
-   It is REFUTED on the current tree for the composite adaptive_minmax (witness below) and, by replay on
-   the real threads, for first calls on a Baseline2D created without x/z (no 2-D thread program in Coq).
+   It is REFUTED on the current tree for the composite adaptive_minmax (witness below).  First calls on a
+   Baseline2D created without x and/or z are proved safe (C04_first_call_2d_safe, since d3d4e98); the 2-D
+   polynomial / spline caches have no Coq thread program (schedule replay only).
    What is proved (unbounded in the number of threads, the schedule, the cache history): the statement
    for all programs whose polynomial segments request one order and whose spline segments request one
    (knots, degree), on an object with x present (C04_single_order_safe) AND on a freshly created object
    without x (C04_first_call_safe; holds since f1bf5e1 stores _size before x -- the schedule that failed
    before is kept as a replayed regression case). *)
 From Coq Require Import ZArith List Bool.
-From PB Require Import C04.Sched C04.Model C04.Proofs.
+From PB Require Import C04.Sched C04.Model C04.Proofs C04.Model2D C04.Proofs2D.
 Import ListNotations.
 Open Scope Z_scope.
 
@@ -83,6 +84,34 @@ Theorem C04_first_call_regression :
   prog_ok false 40 3 false (8, 3) poly3.
 Proof. exact first_call_regression. Qed.
 Print Assumptions C04_first_call_regression.
+
+(* 2-D FIRST CALLS (coq/C04/Model2D.v: prologue of _Algorithm2D._register.inner incl. the _shape setter's two
+   stores __shape then _size, and later reads of x / z / _shape / _size): for a Baseline2D created with x only,
+   z only, neither or both (ix, iz), ANY number of threads passing data of one shape (M, N), ANY schedule:
+   no thread reaches an error state (length mismatch, the setter's partial-update path, np.prod or linspace
+   of None are all unreachable), every later read returns x of length M, z of length N, _shape = (M, N),
+   _size = M*N, and the shared invariant G2 holds in every reachable state. *)
+Theorem C04_first_call_2d_safe : forall M N ix iz dupx dupz progs sched,
+  Forall (prog_ok2 M N dupx dupz) progs ->
+  let st := run_sched2 dupx dupz sched (fresh2 ix iz M N, map init_local2 progs) in
+  length (snd st) = length progs /\
+  G2 M N ix iz (fst st) /\
+  Forall (fun l => (forall e, qpc l <> AErr e) /\ Forall (use_ok2 M N) (quses l) /\
+                   (outcome2 M N l = 0 \/ (outcome2 M N l = 9 /\ qtodo l <> []))) (snd st).
+Proof. exact first_call_2d_safe. Qed.
+Print Assumptions C04_first_call_2d_safe.
+
+(* regression witness: the pre-emption that failed before d3d4e98 (thread 0 stopped after 5 accesses of its
+   first call on Baseline2D(), thread 1 run to completion) now gives serial outcomes; hypothesis satisfiable *)
+Theorem C04_first_call_2d_regression :
+  map (outcome2 12 10)
+      (snd (run_sched2 false false (repeat 0%nat 5 ++ repeat 1%nat 14 ++ repeat 0%nat 14)
+              (fresh2 false false 12 10,
+               [init_local2 [Pro2 false 12 10; Use2 Dshape]; init_local2 [Pro2 false 12 10; Use2 Dshape]])))
+    = [0; 0] /\
+  prog_ok2 12 10 false false [Pro2 false 12 10; Use2 Dshape].
+Proof. exact first_call_2d_regression. Qed.
+Print Assumptions C04_first_call_2d_regression.
 
 (* REFUTED on the current tree: adaptive_minmax(poly_order=2) on a shared object with x present.
    Thread 0 pre-empted after k of its accesses, thread 1 run to completion:
